@@ -39,7 +39,7 @@ def classifyDeliver (w : Net) (h : Handle) (src to : Nat) : Kind :=
           | some ex => if ex.hsTime ≥ time && !ex.initiator then .s1Older cert else .s1Fresh cert
           | none => .s1Fresh cert
       | .s2 _ _ initIdx _ ver replyTo =>
-        match (alookup initIdx nd.pindexes).bind nd.pendingById with
+        match (alookup initIdx nd.p.pindexes).bind nd.p.pendingById with
         | some hh =>
           if hh.pkt0 != some replyTo then .s2Stray else
           let cert := certAddrsOf cn.cfg ver
@@ -49,10 +49,12 @@ def classifyDeliver (w : Net) (h : Handle) (src to : Nat) : Kind :=
         | none => .s2Stray
   | _, _ => .other
 
-def classify (w : Net) : Op → Kind
+def classifyCore (w : Net) : Op → Kind
   | .deliver k => match w.log[k]? with | some (h, src, dst) => classifyDeliver w h src dst | none => .other
   | .dto k m => match w.log[k]? with | some (h, src, _) => classifyDeliver w h src m | none => .other
   | _ => .other
+
+def classify (w : Net) (op : Op) : Kind := classifyCore w (w.resolve op)
 
 structure Ctx where
   myAddrs : List Addr
